@@ -431,12 +431,13 @@ Section Roundtrip.
     match p with PInt _ | PStr _ | PPath _ | PEmpty | PBlank => True | _ => False end.
 
   (** Primitives the parser can produce: integers that survive
-      [to_int(float(...))], finite floats, strings and paths as above, and
+      [to_int(float(...))], floats (infinity included; no literal denotes
+      nan), strings and paths as above, and
       ranges bounded by what the lexer's [accept_range] admits. *)
   Fixpoint wf_prim (p : prim) : Prop :=
     match p with
     | PInt z => int_of_float_of z = Ok z
-    | PFloat f => match f with FFin _ _ => True | _ => False end
+    | PFloat f => f <> FNan
     | PStr s => wf_str s
     | PPath pa => wf_path pa
     | PRange a b => range_start_ok a /\ range_stop_ok b /\ wf_prim a /\ wf_prim b
@@ -448,7 +449,7 @@ Section Roundtrip.
   Proof.
     intros W NR. destruct p as [| | | | |z|f|s|pa|a b]; cbn [prim_atok]; try reflexivity.
     - cbn [wf_prim] in W. cbn [parse_atok]. rewrite W. reflexivity.
-    - destruct f; cbn [wf_prim] in W; [reflexivity|contradiction|contradiction].
+    - destruct f; cbn [wf_prim] in W; [reflexivity|reflexivity|congruence].
     - cbn [wf_prim] in W. pose proof (string_roundtrip printable s W) as E.
       destruct (string_repr printable s) as [q raw]. cbn [fst snd] in E.
       cbn [parse_atok]. rewrite E. reflexivity.
@@ -887,7 +888,7 @@ Section Filtered.
     destruct (arg_prim_tok (pprim p)) eqn:E.
     - rewrite parse_args_primtok by exact E. rewrite R. reflexivity.
     - destruct p as [| | | | |z|f|s|pa|a b]; try discriminate E; try congruence.
-      + destruct f; cbn in W; try contradiction. discriminate E.
+      + destruct f; cbn in W; try congruence; discriminate E.
       + cbn [print_prim prim_atok] in *. unfold path_atok in *.
         destruct (print_path printable false true pa) as [|s r0|s r0|q raw r0|z r0|q r0] eqn:Ep;
           try discriminate E.
@@ -1385,7 +1386,7 @@ Section Loop.
   Proof.
     intros W E. destruct p as [| | | | |z|f|s|pa|a b]; cbn [print_prim prim_atok] in E;
       try discriminate; auto.
-    - destruct f as [m e|[]|]; cbn in W; try contradiction. discriminate.
+    - destruct f as [m e|neg|]; cbn in W; try congruence; discriminate.
     - right. right. unfold path_atok in E.
       destruct (print_path printable false true pa) as [|s r|s r|q raw r|z r|q r] eqn:Ep; try discriminate.
       destruct r; try discriminate. inversion E; subst s. clear E.
@@ -1396,54 +1397,114 @@ Section Loop.
       inversion Ep as [[H1 H2]]. apply print_path_end in H2. subst. reflexivity.
   Qed.
 
-  Definition word_path (w : string) : prim := PPath (PName (lit w) PEnd).
-
   Definition no_opts (l : loopexpr) : Prop :=
     lp_limit l = None /\ lp_offset l = None /\ lp_cols l = None /\ lp_reversed l = false.
 
   Definition opt_wf (o : option prim) : Prop := match o with Some p => wf_prim p | None => True end.
 
-  (** Loop expressions that round trip.  The parser produces array-literal
-      iterables only without options.  Two shapes the parser *can* produce
-      are excluded because a printed bare word is read back differently
-      (known finding [loop-bare-word-reinterpreted]): an array literal whose
-      second item is the one-segment path [limit]/[offset]/[cols]/[reversed]
-      (written [['limit']] in source), and [offset:] given the one-segment
-      path [continue] (written [['continue']]). *)
+  (** Loop expressions the parser can produce: array-literal iterables come
+      without options. *)
   Definition wf_loop (l : loopexpr) : Prop :=
     is_word (lp_ident l) = true /\
     match lp_iter l with
-    | LPrim p =>
-      wf_prim p /\ opt_wf (lp_limit l) /\ opt_wf (lp_offset l) /\ opt_wf (lp_cols l)
-      /\ lp_offset l <> Some (word_path "continue")
-    | LArray xs =>
-      xs <> [] /\ Forall wf_prim xs /\ no_opts l
-      /\ match xs with
-         | _ :: y :: _ => y <> word_path "limit" /\ y <> word_path "offset"
-                          /\ y <> word_path "cols" /\ y <> word_path "reversed"
-         | _ => True
-         end
+    | LPrim p => wf_prim p /\ opt_wf (lp_limit l) /\ opt_wf (lp_offset l) /\ opt_wf (lp_cols l)
+    | LArray xs => xs <> [] /\ Forall wf_prim xs /\ no_opts l
     end.
+
+  Notation pnb := (print_not_bare printable).
+
+  Lemma pnb_not_sp sp p : is_sp (pnb sp p) = false.
+  Proof.
+    unfold print_not_bare.
+    destruct p as [| | | | |z|f|s|pa|a b]; try apply print_prim_not_sp.
+    destruct pa as [|w r|z r|q r]; try apply print_prim_not_sp.
+    destruct r; try apply print_prim_not_sp.
+    destruct (sp w); [reflexivity|apply print_prim_not_sp].
+  Qed.
+
+  Lemma pnb_roundtrip sp p : wf_prim p -> parse_primitive (Some (pnb sp p)) = Ok p.
+  Proof.
+    intro W. unfold print_not_bare.
+    destruct p as [| | | | |z|f|s|pa|a b]; try apply (prim_roundtrip printable _ W).
+    destruct pa as [|w r|z r|q r]; try apply (prim_roundtrip printable _ W).
+    destruct r; try apply (prim_roundtrip printable _ W).
+    destruct (sp w); [|apply (prim_roundtrip printable _ W)].
+    cbn [parse_primitive parse_atok].
+    destruct W as [_ [Ww _]].
+    rewrite (quoted_seg_roundtrip printable w TPEnd PEnd Ww eq_refl). reflexivity.
+  Qed.
+
+  (** If the token is a bare word, the word has no special meaning there. *)
+  Lemma pnb_word sp p w : wf_prim p ->
+    sp (lit "empty") = false -> sp (lit "blank") = false ->
+    pnb sp p = TA (AWord w) -> sp w = false.
+  Proof.
+    intros W Se Sb E.
+    assert (D : pnb sp p = pprim p \/ exists w0, p = PPath (PName w0 PEnd) /\ sp w0 = true
+                                                  /\ pnb sp p = TA (APath (quoted_seg printable w0 TPEnd))).
+    { unfold print_not_bare.
+      destruct p as [| | | | |z|f|s|pa|a b]; try (left; reflexivity).
+      destruct pa as [|w0 r|z r|q r]; try (left; reflexivity).
+      destruct r; try (left; reflexivity).
+      destruct (sp w0) eqn:Es; [right; exists w0; auto|left; reflexivity]. }
+    destruct D as [D|(w0 & _ & _ & D)]; [|rewrite D in E; discriminate].
+    rewrite D in E.
+    destruct (print_prim_word p _ W E) as [ -> | [ -> | -> ] ].
+    - cbn in E. inversion E; subst w. exact Se.
+    - cbn in E. inversion E; subst w. exact Sb.
+    - unfold print_not_bare in D.
+      destruct (sp w) eqn:Es; [|reflexivity].
+      rewrite <- D in E. discriminate.
+  Qed.
 
   Definition sopt (name : string) (v : option prim) : list tok :=
     match v with Some p => [word (lit name); TColon; pprim p] | None => [] end.
+  Definition sopt_offset (v : option prim) : list tok :=
+    match v with Some p => [word (lit "offset"); TColon; pnb is_continue p] | None => [] end.
+  Definition sliter (l : left) : list tok := strip (print_loop_iter printable l).
 
   Lemma strip_loop l :
     strip (print_loop printable l)
-    = word (lp_ident l) :: TOp OIn :: sleft printable (lp_iter l)
-      ++ sopt "limit" (lp_limit l) ++ sopt "offset" (lp_offset l) ++ sopt "cols" (lp_cols l)
+    = word (lp_ident l) :: TOp OIn :: sliter (lp_iter l)
+      ++ sopt "limit" (lp_limit l) ++ sopt_offset (lp_offset l) ++ sopt "cols" (lp_cols l)
       ++ (if lp_reversed l then [word (lit "reversed")] else []).
   Proof.
     unfold print_loop.
-    change (word (lp_ident l) :: TSp :: TOp OIn :: TSp :: print_left printable (lp_iter l) ++ ?x)
-      with ([word (lp_ident l); TSp; TOp OIn; TSp] ++ print_left printable (lp_iter l) ++ x).
+    change (word (lp_ident l) :: TSp :: TOp OIn :: TSp :: print_loop_iter printable (lp_iter l) ++ ?x)
+      with ([word (lp_ident l); TSp; TOp OIn; TSp] ++ print_loop_iter printable (lp_iter l) ++ x).
     rewrite !strip_app.
     assert (O : forall name v, strip (print_loop_opt printable name v) = sopt name v).
     { intros name [p|]; [|reflexivity]. cbn [print_loop_opt sopt].
       change (strip [TSp; word (lit name); TColon; pprim p])
         with (word (lit name) :: TColon :: strip [pprim p]).
       rewrite strip_prim. reflexivity. }
-    rewrite !O. destruct (lp_reversed l); reflexivity.
+    rewrite !O.
+    assert (O2 : strip (match lp_offset l with
+                        | Some p => [TSp; word (lit "offset"); TColon; pnb is_continue p]
+                        | None => []
+                        end) = sopt_offset (lp_offset l)).
+    { destruct (lp_offset l) as [p|]; [|reflexivity]. cbn [sopt_offset].
+      unfold strip. cbn [filter is_sp negb word]. rewrite pnb_not_sp. reflexivity. }
+    rewrite O2. destruct (lp_reversed l); reflexivity.
+  Qed.
+
+  Lemma sliter_array x y r :
+    sliter (LArray (x :: y :: r))
+    = pprim x :: TComma :: pnb is_loop_keyword y :: comma_items printable r.
+  Proof.
+    unfold sliter. cbn [print_loop_iter].
+    rewrite join_concat. cbn [map List.concat app].
+    rewrite strip_prim. f_equal.
+    rewrite strip_app. cbn [sep_comma app].
+    change (strip (TComma :: TSp :: [pnb is_loop_keyword y]))
+      with (TComma :: strip [pnb is_loop_keyword y]).
+    unfold strip at 1. cbn [filter]. rewrite pnb_not_sp. cbn [negb app]. f_equal. f_equal.
+    rewrite map_map. clear x y.
+    induction r as [|z zs IH]; [reflexivity|].
+    cbn [map List.concat]. rewrite strip_app, IH.
+    cbn [sep_comma app]. unfold comma_items. cbn [map List.concat app].
+    change (strip (TComma :: TSp :: [pprim z])) with (TComma :: strip [pprim z]).
+    rewrite strip_prim. reflexivity.
   Qed.
 
   Definition set_opt (name : string) (p : prim) (l : loopexpr) : loopexpr :=
@@ -1478,32 +1539,23 @@ Section Loop.
     cbn [orb andb is_colon_or_assign]. rewrite (prim_roundtrip printable p W). reflexivity.
   Qed.
 
-  Lemma parse_opt_offset p R l : wf_prim p -> p <> word_path "continue" ->
-    parse_loop_opts ([word (lit "offset"); TColon; pprim p] ++ R) l = parse_loop_opts R (set_opt "offset" p l).
+  Lemma parse_opt_offset p R l : wf_prim p ->
+    parse_loop_opts ([word (lit "offset"); TColon; pnb is_continue p] ++ R) l
+    = parse_loop_opts R (set_opt "offset" p l).
   Proof.
-    intros W NC. cbn [app word parse_loop_opts].
+    intros W. cbn [app word parse_loop_opts].
     change (str_eqb (lit "offset") (lit "reversed")) with false.
     change (str_eqb (lit "offset") (lit "limit")) with false.
     change (str_eqb (lit "offset") (lit "cols")) with false.
     change (str_eqb (lit "offset") (lit "offset")) with true.
     cbn [orb andb is_colon_or_assign].
-    assert (E : match pprim p with
+    assert (E : match pnb is_continue p with
                 | TA (AWord c) => str_eqb c (lit "continue")
                 | _ => false
                 end = false).
-    { apply (word_match_false1 (pprim p) (fun c => str_eqb c (lit "continue"))). intros w Ep.
-      destruct (str_eqb w (lit "continue")) eqn:Ew; [|reflexivity].
-      apply str_eqb_eq in Ew. subst w.
-      destruct (print_prim_word p _ W Ep) as [ -> | [ -> | -> ] ]; try discriminate Ep.
-      exfalso. apply NC. reflexivity. }
-    rewrite E. rewrite (prim_roundtrip printable p W). reflexivity.
-  Qed.
-
-  Lemma loop_keyword_cases w : is_loop_keyword w = true ->
-    w = lit "limit" \/ w = lit "reversed" \/ w = lit "cols" \/ w = lit "offset".
-  Proof.
-    unfold is_loop_keyword. intro H.
-    repeat (apply orb_true_iff in H as [H|H]); apply str_eqb_eq in H; auto.
+    { apply (word_match_false1 (pnb is_continue p) (fun c => str_eqb c (lit "continue"))). intros w Ep.
+      apply (pnb_word is_continue p w W); [reflexivity|reflexivity|exact Ep]. }
+    rewrite E. rewrite (pnb_roundtrip is_continue p W). reflexivity.
   Qed.
 
   Theorem print_parse_loop l : wf_loop l ->
@@ -1513,12 +1565,12 @@ Section Loop.
     destruct l as [id iter lim off cols rev]. unfold no_opts in W.
     cbn [lp_ident lp_iter lp_limit lp_offset lp_cols lp_reversed] in *.
     destruct iter as [p|xs].
-    - destruct W as (Wp & Wl & Wo & Wc & NC).
-      unfold sleft. cbn [print_left]. rewrite strip_prim. cbn [strip filter app].
+    - destruct W as (Wp & Wl & Wo & Wc).
+      unfold sliter, print_loop_iter. cbn [print_left]. rewrite strip_prim. cbn [strip filter app].
       cbn [parse_loop word hd_error tl]. rewrite (prim_roundtrip printable p Wp). cbn [bind].
       set (l0 := {| lp_ident := id; lp_iter := LPrim p; lp_limit := None; lp_offset := None;
                     lp_cols := None; lp_reversed := false |}).
-      set (O := sopt "limit" lim ++ sopt "offset" off ++ sopt "cols" cols
+      set (O := sopt "limit" lim ++ sopt_offset off ++ sopt "cols" cols
                 ++ (if rev then [word (lit "reversed")] else [])).
       assert (E : parse_loop_opts O l0
                   = Ok {| lp_ident := id; lp_iter := LPrim p; lp_limit := lim; lp_offset := off;
@@ -1527,9 +1579,9 @@ Section Loop.
         assert (A1 : forall R l, parse_loop_opts (sopt "limit" lim ++ R) l
                      = parse_loop_opts R (match lim with Some q => set_opt "limit" q l | None => l end)).
         { intros R l. destruct lim as [q|]; [apply parse_opt_limit; exact Wl|reflexivity]. }
-        assert (A2 : forall R l, parse_loop_opts (sopt "offset" off ++ R) l
+        assert (A2 : forall R l, parse_loop_opts (sopt_offset off ++ R) l
                      = parse_loop_opts R (match off with Some q => set_opt "offset" q l | None => l end)).
-        { intros R l. destruct off as [q|]; [apply parse_opt_offset; [exact Wo|congruence]|reflexivity]. }
+        { intros R l. destruct off as [q|]; [apply parse_opt_offset; exact Wo|reflexivity]. }
         assert (A3 : forall R l, parse_loop_opts (sopt "cols" cols ++ R) l
                      = parse_loop_opts R (match cols with Some q => set_opt "cols" q l | None => l end)).
         { intros R l. destruct cols as [q|]; [apply parse_opt_cols; exact Wc|reflexivity]. }
@@ -1539,32 +1591,24 @@ Section Loop.
       assert (Ht : t <> TComma).
       { subst O. destruct lim, off, cols, rev; cbn in EO; inversion EO; discriminate. }
       destruct t; try exact E. congruence.
-    - destruct W as (NE & Wxs & (E1 & E2 & E3 & E4) & W2). subst lim off cols rev.
-      cbn [sopt app]. rewrite app_nil_r.
+    - destruct W as (NE & Wxs & (E1 & E2 & E3 & E4)). subst lim off cols rev.
+      cbn [sopt sopt_offset app]. rewrite app_nil_r.
       destruct xs as [|x xs]; [congruence|]. inversion Wxs as [|? ? Wx Wxs']; subst.
       destruct xs as [|y ys].
-      + unfold sleft. cbn [print_left]. rewrite strip_prim. cbn [strip filter is_sp negb].
+      + unfold sliter, print_loop_iter. cbn [print_left]. rewrite strip_prim. cbn [strip filter is_sp negb].
         cbn [parse_loop word hd_error tl]. rewrite (prim_roundtrip printable x Wx). reflexivity.
-      + rewrite sleft_array by discriminate.
+      + rewrite sliter_array.
         cbn [parse_loop word hd_error tl]. rewrite (prim_roundtrip printable x Wx). cbn [bind].
-        unfold comma_items. cbn [map List.concat app].
         inversion Wxs' as [|? ? Wy Wys]; subst.
-        assert (K : match pprim y :: List.concat (map (fun x0 => [TComma; pprim x0]) ys) with
+        assert (K : match pnb is_loop_keyword y :: comma_items printable ys with
                     | TA (AWord w) :: _ => is_loop_keyword w
                     | _ => false
                     end = false).
-        { apply (word_match_false (pprim y) is_loop_keyword
-                   (List.concat (map (fun x0 => [TComma; pprim x0]) ys))). intros w Ep.
-          destruct (is_loop_keyword w) eqn:Ek; [|reflexivity].
-          destruct W2 as (N1 & N2 & N3 & N4).
-          destruct (print_prim_word y _ Wy Ep) as [ -> | [ -> | -> ] ]; try discriminate Ep.
-          - cbn in Ep. inversion Ep; subst w. discriminate Ek.
-          - cbn in Ep. inversion Ep; subst w. discriminate Ek.
-          - exfalso. destruct (loop_keyword_cases w Ek) as [ -> | [ -> | [ -> | -> ] ] ];
-              [apply N1|apply N4|apply N3|apply N2]; reflexivity. }
-        rewrite K.
-        pose proof (parse_array_print printable (y :: ys) Wxs' [x] [] I) as P.
-        unfold comma_items in P. cbn [map List.concat app] in P.
+        { apply (word_match_false (pnb is_loop_keyword y) is_loop_keyword (comma_items printable ys)).
+          intros w Ep. apply (pnb_word is_loop_keyword y w Wy); [reflexivity|reflexivity|exact Ep]. }
+        rewrite K. cbn [parse_array].
+        rewrite (pnb_roundtrip is_loop_keyword y Wy).
+        pose proof (parse_array_print printable ys Wys ([x] ++ [y]) [] I) as P.
         rewrite app_nil_r in P. rewrite P. reflexivity.
   Qed.
 
@@ -1640,32 +1684,29 @@ Proof. intro W. exists l. split; [apply print_parse_loop; exact W|reflexivity]. 
 
 Definition all_printable : N -> bool := fun _ => true.
 
-(** [{{ 1.0e999 }}] is the float [inf]; it prints as [inf], a variable name. *)
-Theorem float_inf_refuted :
-  exists e, parse_filtered (strip (print_fexpr all_printable e)) <> Ok e.
-Proof. exists (FFiltered (LPrim (PFloat (FInf false))) []). vm_compute. discriminate. Qed.
+(** [{{ 1.0e999 }}] is the float [inf]; it is written as a float literal that
+    denotes infinity, and loop expressions write variables named like their
+    keywords in bracket notation. *)
+Example float_inf_roundtrip :
+  parse_filtered (strip (print_fexpr all_printable (FFiltered (LPrim (PFloat (FInf true))) [])))
+  = Ok (FFiltered (LPrim (PFloat (FInf true))) []).
+Proof. vm_compute. reflexivity. Qed.
 
-(** [{% for i in a, ['limit'] %}]: the second item prints as the bare word
-    [limit], which [LoopExpression.parse] takes for the [limit] option. *)
-Theorem loop_array_keyword_refuted :
-  exists l, parse_loop (strip (print_loop all_printable l)) <> Ok l.
-Proof.
-  exists {| lp_ident := lit "i";
-            lp_iter := LArray [PPath (PName (lit "a") PEnd); PPath (PName (lit "limit") PEnd)];
-            lp_limit := None; lp_offset := None; lp_cols := None; lp_reversed := false |}.
-  vm_compute. discriminate.
-Qed.
+Definition ex_loop_keywords : loopexpr :=
+  {| lp_ident := lit "i";
+     lp_iter := LArray [PPath (PName (lit "a") PEnd); PPath (PName (lit "limit") PEnd);
+                        PPath (PName (lit "reversed") PEnd)];
+     lp_limit := None; lp_offset := None; lp_cols := None; lp_reversed := false |}.
+Definition ex_loop_continue : loopexpr :=
+  {| lp_ident := lit "i"; lp_iter := LPrim (PPath (PName (lit "a") PEnd));
+     lp_limit := Some (PPath (PName (lit "limit") PEnd));
+     lp_offset := Some (PPath (PName (lit "continue") PEnd));
+     lp_cols := None; lp_reversed := true |}.
 
-(** [{% for i in a offset: ['continue'] %}]: prints as [offset:continue], which
-    is read as the string ['continue']. *)
-Theorem loop_offset_continue_refuted :
-  exists l, parse_loop (strip (print_loop all_printable l)) <> Ok l.
-Proof.
-  exists {| lp_ident := lit "i"; lp_iter := LPrim (PPath (PName (lit "a") PEnd));
-            lp_limit := None; lp_offset := Some (PPath (PName (lit "continue") PEnd));
-            lp_cols := None; lp_reversed := false |}.
-  vm_compute. discriminate.
-Qed.
+Example loop_keywords_roundtrip :
+  parse_loop (strip (print_loop all_printable ex_loop_keywords)) = Ok ex_loop_keywords
+  /\ parse_loop (strip (print_loop all_printable ex_loop_continue)) = Ok ex_loop_continue.
+Proof. split; vm_compute; reflexivity. Qed.
 
 (** * Non-vacuity: the hypotheses are satisfied by non-trivial expressions *)
 
@@ -1675,7 +1716,7 @@ Ltac solve_wf :=
          end;
   repeat match goal with
          | |- _ => progress unfold wf_fexpr, wf_left, wf_filter, wf_arg, wf_argval_pos, wf_argval_kw,
-                                    wf_loop, opt_wf, no_opts, wf_path, wf_str, word_path
+                                    wf_loop, opt_wf, no_opts, wf_path, wf_str
          | |- _ /\ _ => split
          | |- True => exact I
          | |- Forall _ [] => constructor
